@@ -91,7 +91,8 @@ def run(ctx):
     concrete = [d for d in dis if d.get("kind") == "disagreement" and not d["holds_on_impl"]]
     others = [d for d in dis if d not in concrete]
     recorded = 0
-    for d in concrete[:50]:
+    for d in concrete:
+        if recorded >= 50: break      # cap on RECORDED violations: hits of known findings must not use it up
         mons = mon_names(d["model"]) or ["observation"]
         sig = "C15 monitor %s" % ",".join(sorted(set(re.sub(r":g\d+|@\d+|:m\d+", "", m) for m in mons)))
         recorded += ctx.violation({"kind": "trace", "input": d["op"], "actual": d["impl"], "expected": d["model"],
